@@ -55,6 +55,7 @@ type Engine struct {
 	loadTime       float64
 	localsBase     map[string][]localEntry // claims/locals.json (locals.go)
 	renamesUsed    map[string]map[string]string
+	rangeKeyBase   map[string]map[int]string // claims/rangekeys.json
 }
 
 func loadEngine(repo string) (*Engine, error) {
@@ -351,6 +352,7 @@ type FuncResult struct {
 	Deps        []string
 	GenTime     float64
 	ParamTerms  []paramTerm
+	RangeKeys   map[int]string
 	ctx         *FnCtx
 }
 
@@ -373,6 +375,11 @@ func (e *Engine) newCtx(t *Target) *FnCtx {
 	} else if t.lit != nil {
 		c.decl = t.lit
 	}
+	c.curLocals = map[string]bool{}
+	for _, l := range localsOf(t) {
+		c.curLocals[l.Name] = true
+	}
+	c.baseRangeKey = e.rangeKeyBase[t.Key]
 	if base, ok := e.localsBase[t.Key]; ok {
 		if m := renameMap(base, localsOf(t)); len(m) > 0 {
 			c.renames = m
@@ -397,6 +404,7 @@ func (e *Engine) verifyFunc(t *Target) (res *FuncResult) {
 			}
 		}
 		res.Obls = c.obls
+		res.RangeKeys = c.rangeKeys
 		res.Unsupported = c.unsupported
 		for k := range c.unmodelled {
 			res.Unmodelled = append(res.Unmodelled, k)
